@@ -724,6 +724,30 @@ func fullName(f *types.Func) string {
 	return f.FullName()
 }
 
+// partialRead: does the statement read from a buffer with (*bytes.Buffer).Read / (*bytes.Reader).Read,
+// which returns a short count with a nil error (not a full read)?
+func (cs *CodecSet) partialRead(s ast.Stmt) bool {
+	found := false
+	ast.Inspect(s, func(n ast.Node) bool {
+		if call, ok := n.(*ast.CallExpr); ok {
+			switch fullName(calleeOf(cs.info, call)) {
+			case "(*bytes.Buffer).Read", "(*bytes.Reader).Read", "(io.Reader).Read":
+				found = true
+			}
+		}
+		return !found
+	})
+	return found
+}
+
+func (cs *CodecSet) unclassified(c *Codec, fname string, s ast.Stmt) {
+	if cs.partialRead(s) {
+		cs.problem(c, fname, s.Pos(), "value read with a Read method that may return fewer octets than asked with a nil error (not a full read such as binary.Read): a truncated value would be accepted and zero-filled: %s", nodeSummary(cs.w.Fset, s))
+		return
+	}
+	cs.problem(c, fname, s.Pos(), "unclassified statement: %s", nodeSummary(cs.w.Fset, s))
+}
+
 // ioStmt matches: if err := binary.Read|Write(buf, binary.BigEndian, X); err != nil { return <non-nil error> }
 // It returns the I/O operand, whether the error arm provably returns a non-nil error, and ok.
 func (cs *CodecSet) ioStmt(s ast.Stmt, bufName string, write bool) (operand ast.Expr, errOK bool, why string, ok bool) {
@@ -1019,7 +1043,7 @@ func (cs *CodecSet) parseEncoder(c *Codec) {
 				}
 			}
 		}
-		cs.problem(c, fname, s.Pos(), "unclassified statement: %s", nodeSummary(cs.w.Fset, s))
+		cs.unclassified(c, fname, s)
 	}
 	if !c.EncTail {
 		cs.problem(c, fname, fd.Body.Rbrace, "encoder does not end with `return nil`")
@@ -1256,7 +1280,7 @@ func (cs *CodecSet) parseSlots(c *Codec, fname, recv, buf string, stmts []ast.St
 				}
 			}
 		}
-		cs.problem(c, fname, s.Pos(), "unclassified statement: %s", nodeSummary(cs.w.Fset, s))
+		cs.unclassified(c, fname, s)
 	}
 	return slots
 }
